@@ -302,6 +302,11 @@ def split_mono(pc, m, depth=0):
             kind, t = th
             others = [(w, bw) for w, bw in vars if w.get_id() != v.get_id()]
             if any(_contains(t, w) for w, _ in others):
+                # Kronecker delta between bound variables: SUM_v [v == e] f(v) = f(e) when e is always in range
+                if kind == 'point':
+                    octx = _ranges(others)
+                    if pc.implied(z3.And(t >= 0, t < b), octx) and pc.implied(body == 0, ctx + [v != t]):
+                        return split_mono(pc, Mono(others, z3.substitute(body, (v, t))), depth + 1)
                 continue
             if kind == 'cut':
                 if not (pc.implied(t >= 0) and pc.implied(t <= b)):
@@ -420,6 +425,62 @@ def prove_eq(pc, t1, t2):
 # concrete evaluation (exact rationals) -- used to find real counterexamples for Sigma-terms
 # --------------------------------------------------------------------------------------------
 
+class CFrac(object):
+    """Gaussian rational: a model of the abstract field with involution in which conj is not the identity"""
+    __slots__ = ('re', 'im')
+
+    def __init__(self, re, im=0):
+        self.re = Fraction(re)
+        self.im = Fraction(im)
+
+    @staticmethod
+    def of(x):
+        return x if isinstance(x, CFrac) else CFrac(x)
+
+    def __add__(self, o):
+        o = CFrac.of(o)
+        return CFrac(self.re + o.re, self.im + o.im)
+    __radd__ = __add__
+
+    def __neg__(self):
+        return CFrac(-self.re, -self.im)
+
+    def __sub__(self, o):
+        return self + (-CFrac.of(o))
+
+    def __rsub__(self, o):
+        return CFrac.of(o) - self
+
+    def __mul__(self, o):
+        o = CFrac.of(o)
+        return CFrac(self.re * o.re - self.im * o.im, self.re * o.im + self.im * o.re)
+    __rmul__ = __mul__
+
+    def __truediv__(self, o):
+        o = CFrac.of(o)
+        n = o.re * o.re + o.im * o.im
+        return self * CFrac(o.re / n, -o.im / n)
+
+    def __rtruediv__(self, o):
+        return CFrac.of(o) / self
+
+    def conjugate(self):
+        return CFrac(self.re, -self.im)
+
+    def __eq__(self, o):
+        o = CFrac.of(o)
+        return self.re == o.re and self.im == o.im
+
+    def __ne__(self, o):
+        return not self == o
+
+    def __hash__(self):
+        return hash((self.re, self.im))
+
+    def __repr__(self):
+        return '(%s+%sj)' % (self.re, self.im)
+
+
 class Evaluator(object):
     """evaluates z3 Int/Real/Bool expressions under an assignment of the free constants; uninterpreted
     functions are interpreted by a deterministic pseudo-random rational table (seeded)."""
@@ -428,13 +489,17 @@ class Evaluator(object):
         self.env = dict(env)       # name -> python int / Fraction / bool
         self.seed = seed
         self.uf = {}
+        self.complex_mode = complex_mode
 
     def _uf(self, name, args):
         key = (name,) + tuple(args)
         if key not in self.uf:
             import hashlib
             h = int(hashlib.sha256(repr((self.seed, key)).encode()).hexdigest()[:8], 16)
-            self.uf[key] = Fraction((h % 19) - 9, 1 + (h >> 8) % 3)
+            v = Fraction((h % 19) - 9, 1 + (h >> 8) % 3)
+            if self.complex_mode:
+                v = CFrac(v, Fraction((h >> 12) % 11 - 5, 1 + (h >> 20) % 2))
+            self.uf[key] = v
         return self.uf[key]
 
     def ev(self, e):
@@ -462,7 +527,7 @@ class Evaluator(object):
                 return self.env[n]
             args = [self.ev(c) for c in ch]
             if e.decl().eq(CONJ):
-                return args[0]            # real instance of the abstract field
+                return args[0].conjugate() if isinstance(args[0], CFrac) else args[0]
             if e.decl().eq(ABS):
                 return abs(args[0])
             return self._uf(e.decl().name(), args)
@@ -483,7 +548,10 @@ class Evaluator(object):
         if k == z3.Z3_OP_UMINUS:
             return -self.ev(ch[0])
         if k == z3.Z3_OP_DIV:
-            return Fraction(self.ev(ch[0])) / Fraction(self.ev(ch[1]))
+            a, b = self.ev(ch[0]), self.ev(ch[1])
+            if isinstance(a, CFrac) or isinstance(b, CFrac):
+                return CFrac.of(a) / CFrac.of(b)
+            return Fraction(a) / Fraction(b)
         if k == z3.Z3_OP_IDIV:
             return self.ev(ch[0]) // self.ev(ch[1])
         if k == z3.Z3_OP_MOD:
@@ -518,7 +586,7 @@ class Evaluator(object):
             return self.ev(ch[0]) >= self.ev(ch[1])
         raise OutOfSubset('evaluator: unsupported z3 node %s' % e.decl().name())
 
-    def term(self, t, budget=200000):
+    def term(self, t, budget=60000):
         total = Fraction(0)
         for m in t.monos:
             bounds = [self.ev(b) if is_sym(b) else b for _, b in m.vars]
